@@ -258,6 +258,12 @@ def run(ctx):
     # ---- R7 ----------------------------------------------------------------------
     _licensed_operations(ctx, rows)
 
+    # ---- R8 ----------------------------------------------------------------------
+    _annotated_explanation_order(ctx, F, 'C03.R8')
+
+    # ---- R9 ----------------------------------------------------------------------
+    _diagnosis_short_circuit(ctx, V, F, 'C03.R9')
+
     # ---- R4 ----------------------------------------------------------------------
     _violation_selection(ctx, G, F)
 
@@ -622,3 +628,185 @@ def _explanation_entry(ctx, F):
         F.stubs.clear()
         F.stubs.update(saved_stubs)
         F.patch_global(ERRMAIN, 'BEARTYPE_CONF_DEFAULT', old_default)
+
+
+def _annotated_explanation_order(ctx, F, RULE):
+    """The Annotated cause finder, interpreted with scripted validators: user code runs in the order and to the extent the
+    generated check runs it."""
+    import itertools
+    from sa.fold import _WithValue
+    table = _gen.cause_finder_table(ctx, F)
+    finder = next((v for s, v in table.items() if sign_name(s) == 'Annotated'), None)
+    ctx.require(isinstance(finder, FuncVal), 'anchor vanished: the cause finder of Annotated hints')
+    mm = ctx.repo.mod(finder.module)
+    ctx.rule(RULE, 'the explanation of an Annotated[T, V1, …, Vn] rejection, decided by interpreting its cause finder with '
+             'scripted validators (n ≤ 3, every accept / reject vector, T accepting or rejecting): user-supplied '
+             'validators are called exactly as the generated check `isinstance(x, T) and V1(x) and … and Vn(x)` calls '
+             'them — none when T rejects, V1…Vk when Vk is the first to reject — so a validator that would raise on an '
+             'object an earlier one rejects is never reached; the cause names the first rejecting validator')
+    log = []
+
+    class _Val(AObj):
+        def __init__(self, i, ok):
+            self.i, self.ok = i, ok
+
+        def is_valid(self, obj):
+            log.append(('is_valid', self.i))
+            return self.ok
+
+        def get_diagnosis(self, **kw):
+            log.append(('get_diagnosis', self.i))
+            return f'diagnosis of V{self.i}'
+
+        def __repr__(self):
+            return f'V{self.i}'
+
+    class _Found(AObj):
+        _track_attribute_stores = True
+
+        def __init__(self, text=None):
+            self.cause_str_or_none = text
+            self.pith = 'PITH'
+            self.exception_prefix = ''
+
+    class _Child(AObj):
+        def __init__(self, text):
+            self.text = text
+
+        def find_cause(self):
+            return _Found(self.text)
+
+    class _HC(AObj):
+        pass
+
+    class _Cause(AObj):
+        def __init__(self, sign, meta_ok):
+            self.hint_curr = _HC()
+            self.hint_curr.hint_sign = sign
+            self.hint_curr_sanified = 'ANNOTATED'
+            self.meta_ok = meta_ok
+            self.pith = 'PITH'
+            self.exception_prefix = ''
+
+        def permute_cause_hint_child_insane(self, hint):
+            return _Child(None if self.meta_ok else 'not an instance of T')
+
+        def permute_cause(self, **kw):
+            return _Found()
+    saved_stubs, saved_i, saved_b = dict(F.stubs), F.isinstance_hook, F.builtin_hook
+    state = {}
+    F.stubs['beartype._util.hint.pep.proposal.pep593.get_hint_pep593_metahint'] = lambda e, a, k: 'T'
+    F.stubs['beartype._util.hint.pep.proposal.pep593.get_hint_pep593_metadata'] = lambda e, a, k: tuple(state['vals'])
+    F.stubs['beartype._util.text.utiltextrepr.represent_pith'] = lambda e, a, k: '<pith>'
+    F.isinstance_hook = lambda o, c: True if isinstance(o, (_Val, _Cause)) else (saved_i(o, c) if saved_i else None)
+    F.builtin_hook = lambda n_, a, k: (repr(a[0]) if n_ == 'repr' and a and isinstance(a[0], AObj) else (
+        saved_b(n_, a, k) if saved_b else NotImplemented))
+    sign = next(s for s in table if sign_name(s) == 'Annotated')
+    n = 0
+    try:
+        for meta_ok in (True, False):
+            for k in (1, 2, 3):
+                for vec in itertools.product((True, False), repeat=k):
+                    del log[:]
+                    state['vals'] = [_Val(i + 1, ok) for i, ok in enumerate(vec)]
+                    try:
+                        out = _call_function(F, finder, [_Cause(sign, meta_ok)], {}, 1)
+                    except (_Abort, _Raise) as ex:
+                        ctx.require(False, f'cannot interpret {finder.qual}: {ex}')
+                    n += 1
+                    first_bad = next((i + 1 for i, ok in enumerate(vec) if not ok), None)
+                    if not meta_ok:
+                        want_calls = []
+                    else:
+                        want_calls = [('is_valid', i) for i in range(1, (first_bad or k) + 1)]
+                    calls = [c for c in log if c[0] == 'is_valid']
+                    tag = f'T-{"accepts" if meta_ok else "rejects"}:validators={"".join("A" if ok else "R" for ok in vec)}'
+                    ctx.ob(RULE, f'annotated:validators-called-as-the-check-calls-them:{tag}', mm.where(finder.node),
+                           'validators are called in order and only up to the first that rejects (none when T rejects)',
+                           calls == want_calls, f'calls {[f"V{i}.is_valid" for _, i in calls]}, the generated check makes '
+                           f'{[f"V{i}.is_valid" for _, i in want_calls]}')
+                    text = getattr(out, 'cause_str_or_none', None)
+                    if not meta_ok:
+                        ok = text == 'not an instance of T'
+                    elif first_bad is None:
+                        ok = text is None
+                    else:
+                        ok = isinstance(text, str) and f'V{first_bad}' in text and [c for c in log if c[0] == 'get_diagnosis'] == [('get_diagnosis', first_bad)]
+                    ctx.ob(RULE, f'annotated:cause-names-the-first-rejecting-validator:{tag}', mm.where(finder.node),
+                           'the cause is the shallow one when T rejects, else the diagnosis of the first rejecting validator',
+                           ok, f'cause {text!r}; diagnoses requested {[i for c, i in log if c == "get_diagnosis"]}')
+    finally:
+        F.isinstance_hook, F.builtin_hook = saved_i, saved_b
+        F.stubs.clear()
+        F.stubs.update(saved_stubs)
+    ctx.floor(RULE, n, 28, 'validator outcome vectors')
+
+
+def _diagnosis_short_circuit(ctx, V, F, RULE):
+    """Validator diagnoses, interpreted with scripted testers: what the generated check short-circuits away must not be
+    able to turn a rejection into the user's exception."""
+    from sa.fold import BoundMethod
+    ctx.rule(RULE, 'describing a rejection by a compound validator, decided by interpreting get_diagnosis of the validator '
+             'classes (leaf, &, |, ~; handlers and the short-circuit flag modelled) with scripted testers — A rejects, P '
+             'accepts, B raises when called: for A & X and P | X with X ∈ {B, ~B, B & B, B | B, B & P, ~(B & P), ~~B} the '
+             'generated check never evaluates X, and neither may the diagnosis let B\'s exception escape (a rejection '
+             'must surface as the configured violation, not as an exception of user code the check itself skipped)')
+    calls = []
+
+    class _Tester(AObj):
+        def __init__(self, name, behaviour):
+            self.name, self.behaviour = name, behaviour
+            self.__name__ = name
+
+        def __call__(self, obj):
+            calls.append(self.name)
+            if self.behaviour == 'raises':
+                raise _Raise('UserError', f'tester {self.name}')
+            return self.behaviour == 'accepts'
+
+        def __repr__(self):
+            return f'<tester {self.name}>'
+    saved_stubs = dict(F.stubs)
+    F.stubs['beartype.vale._util._valeutiltext.format_diagnosis_line'] = \
+        lambda e, a, k: f'{k.get("validator_repr")} [{k.get("is_obj_valid")}]'
+    vm = ctx.repo.mod('beartype.vale._core._valecore')
+
+    def leaf(name, behaviour):
+        return V.make('Is', _Tester(name, behaviour))
+    n = 0
+    try:
+        F.faithful_try = True
+        shapes = {
+            'B': lambda: leaf('B', 'raises'),
+            '~B': lambda: V.op('~', leaf('B', 'raises')),
+            'B & B': lambda: V.op('&', leaf('B', 'raises'), leaf('B', 'raises')),
+            'B | B': lambda: V.op('|', leaf('B', 'raises'), leaf('B', 'raises')),
+            'B & P': lambda: V.op('&', leaf('B', 'raises'), leaf('P', 'accepts')),
+            '~(B & P)': lambda: V.op('~', V.op('&', leaf('B', 'raises'), leaf('P', 'accepts'))),
+            '~~B': lambda: V.op('~', V.op('~', leaf('B', 'raises'))),
+        }
+        for xname, mk in shapes.items():
+            for top_name, top in ((f'A & ({xname})', lambda x: V.op('&', leaf('A', 'rejects'), x)),
+                                  (f'P | ({xname})', lambda x: V.op('|', leaf('P', 'accepts'), x))):
+                v = top(mk())
+                gd = v.cls.find('get_diagnosis')
+                ctx.require(isinstance(gd, FuncVal), 'anchor vanished: get_diagnosis of the compound validators')
+                del calls[:]
+                raised = out = None
+                try:
+                    out = _call_function(F, gd, [v], dict(obj='OBJ', indent_level_outer='', indent_level_inner=''), 1)
+                except _Raise as ex:
+                    raised = ex
+                except _Abort as ex:
+                    ctx.require(False, f'cannot interpret get_diagnosis of {top_name}: {ex}')
+                n += 1
+                mod = ctx.repo.mod(gd.module)
+                ctx.ob(RULE, f'diagnosis:short-circuited-operand-cannot-raise:{top_name}', mod.where(gd.node),
+                       'the diagnosis of a validator whose right operand the check never evaluates completes without '
+                       'letting that operand\'s tester raise', raised is None and isinstance(out, str),
+                       f'raises {raised} (testers called: {calls})' if raised is not None else f'evaluates to {out!r}')
+    finally:
+        F.faithful_try = False
+        F.stubs.clear()
+        F.stubs.update(saved_stubs)
+    ctx.floor(RULE, n, 14, 'compound validator shapes diagnosed')
